@@ -537,8 +537,13 @@ local function _lua_reset_env()
     env["_mw_clone"] = mw_clone
     -- namespace
     env["NAMESPACE_DATA"] = NAMESPACE_DATA
-    env["_python_top_env"] = _python_top_env
-    env["_python_append_env"] = _python_append_env
+    -- Lua closures around the Python callables (see _lua_set_functions)
+    env["_python_top_env"] = function()
+        return _python_top_env()
+    end
+    env["_python_append_env"] = function(e)
+        return _python_append_env(e)
+    end
     return env
 end
 
